@@ -29,7 +29,7 @@ Fixpoint bscan (qs : list (list Z)) (fired : list nat) (outs : list boutput) : o
       if bmem h fired then None
       else if (match oc with
                | BSucc f => match nth_error qs h with Some q => zlist_eqb (take 4 f) (req_id q) | None => false end
-               | BFailLost => true end)
+               | _ => true end)
            then bscan qs (h :: fired) r else None
   | BErr _ :: _ => None
   | _ :: r => bscan qs fired r
@@ -39,7 +39,7 @@ Lemma bscan_app qs : forall a b f, bscan qs f (a ++ b) = match bscan qs f a with
 Proof.
   induction a as [|o a IH]; intros b f; cbn [app bscan]; [reflexivity|].
   destruct o; try apply IH; try reflexivity.
-  destruct (bmem h f); [reflexivity|]. destruct o; [destruct (nth_error qs h); [destruct (zlist_eqb _ _)|]|]; try reflexivity; apply IH.
+  destruct (bmem h f); [reflexivity|]. destruct o as [fr| |]; [destruct (nth_error qs h); [destruct (zlist_eqb _ _)|]| |]; try reflexivity; apply IH.
 Qed.
 
 Lemma bscan_qs_app qs x : forall outs f f', bscan qs f outs = Some f' -> bscan (qs ++ x) f outs = Some f'.
@@ -61,7 +61,7 @@ Proof.
   - destruct o; cbn [bdef_handles flat_map app]; try (apply IH; exact H; fail); try discriminate.
     destruct (bmem h f); [discriminate|].
     assert (X : bscan qs (h :: f) outs = Some f').
-    { destruct o; [destruct (nth_error qs h); [destruct (zlist_eqb _ _)|]|]; try discriminate; exact H. }
+    { destruct o as [fr| |]; [destruct (nth_error qs h); [destruct (zlist_eqb _ _)|]| |]; try discriminate; exact H. }
     apply IH in X. rewrite X. cbn [rev]. rewrite <- app_assoc. reflexivity.
 Qed.
 
@@ -83,17 +83,20 @@ Proof.
     + destruct (IH _ _ H) as [A B]. split.
       * intros h0 [X|X]; [discriminate | exact (A h0 X)].
       * intros h0 fr [X|X]; [discriminate | exact (B h0 fr X)].
+    + destruct (IH _ _ H) as [A B]. split.
+      * intros h0 [X|X]; [discriminate | exact (A h0 X)].
+      * intros h0 fr [X|X]; [discriminate | exact (B h0 fr X)].
 Qed.
 
 (* ---- invariant ---- *)
 Definition pend_ok (s : bstate) (p : list (list Z * nat)) : Prop :=
   NoDup (map snd p) /\ NoDup (map fst p)
-  /\ (forall k h, In (k, h) p -> ~ In h (b_fired s) /\ exists q, nth_error (b_reqs s) h = Some q /\ req_id q = k)
+  /\ (forall k h, In (k, h) p -> (~ In h (b_fired s) \/ In h (b_supp s)) /\ exists q, nth_error (b_reqs s) h = Some q /\ req_id q = k)
   /\ (forall h, (h < length (b_reqs s))%nat -> ~ In h (b_fired s) -> exists k, In (k, h) p).
 
 Definition BInv (s : bstate) : Prop :=
   (forall h, In h (b_fired s) -> (h < length (b_reqs s))%nat)
-  /\ NoDup (b_fired s)
+  /\ (NoDup (b_fired s) /\ forall h, In h (b_supp s) -> In h (b_fired s))
   /\ match b_pending s with
      | Some p => pend_ok s p /\ b_failed s = false
      | None => b_failed s = true /\ forall h, (h < length (b_reqs s))%nat -> In h (b_fired s)
@@ -149,34 +152,60 @@ Qed.
 Lemma bstep_ok_same s : BInv s -> bstep_ok s s [].
 Proof. intro I. split; [exact I | split; [exists []; rewrite app_nil_r; reflexivity | reflexivity]]. Qed.
 
+Lemma in_supp_remove h x l : In x (filter (fun y => negb (Nat.eqb h y)) l) <-> In x l /\ x <> h.
+Proof.
+  rewrite filter_In. split; intros [A B]; split; auto.
+  - apply negb_true_iff in B. apply Nat.eqb_neq in B. auto.
+  - apply negb_true_iff. apply Nat.eqb_neq. auto.
+Qed.
+
 (* stringReceived *)
 Lemma b_string_received_ok s f s' o : BInv s -> b_string_received s f = (s', o) ->
   bstep_ok s s' o /\ b_rx s' = b_rx s /\ (b_pending s = None <-> b_pending s' = None).
 Proof.
-  intros I H. pose proof I as (I1 & I2 & I3). unfold b_string_received in H.
+  intros I H. pose proof I as (I1 & (I2 & IS) & I3). unfold b_string_received in H.
   remember (take 4 f) as kf eqn:Ekf.
   destruct (b_pending s) as [p|] eqn:Ep.
   - destruct I3 as [(P1 & P0 & P2 & P3) Fl].
     destruct (blookup kf p) as [h|] eqn:L.
     + apply blookup_in in L. destruct (P2 _ _ L) as (Nf & q & Eq & Ek).
-      unfold bfire in H. cbn [b_fired] in H. fold (bmem h (b_fired s)) in H. rewrite (proj2 (bmem_nIn _ _) Nf) in H.
-      injection H as <- <-. cbn [b_pending b_rx]. split; [|split; [reflexivity | split; discriminate]].
-      split; [|split].
-      * unfold BInv. cbn [b_fired b_reqs b_pending b_failed]. split; [|split; [|split; [|exact Fl]]].
-        -- intros x [<-|Hx]; [apply nth_error_Some; congruence | auto].
-        -- constructor; auto.
-        -- unfold pend_ok. cbn [b_fired b_reqs]. split; [|split; [|split]].
+      fold (bmem h (b_supp s)) in H. destruct (bmem h (b_supp s)) eqn:Su.
+      * (* late response to a cancelled request: the tombstone goes, nothing fires *)
+        apply bmem_In in Su. injection H as <- <-. cbn [b_pending b_rx]. split; [|split; [reflexivity | split; discriminate]].
+        split; [|split; [exists []; cbn; rewrite app_nil_r; reflexivity | reflexivity]].
+        unfold BInv. cbn [b_fired b_reqs b_pending b_failed b_supp]. split; [exact I1 | split; [split; [exact I2|] | split; [|exact Fl]]].
+        -- intros x Hx. apply in_supp_remove in Hx. apply IS. tauto.
+        -- unfold pend_ok. cbn [b_fired b_reqs b_supp]. split; [|split; [|split]].
            ++ apply NoDup_map_filter'. exact P1.
            ++ apply NoDup_map_filter'. exact P0.
            ++ intros k h0 Hin. apply in_bremove in Hin. destruct Hin as [Hin Hne]. cbn [fst] in Hne.
               destruct (P2 _ _ Hin) as (A & B). split; [|exact B].
-              intros [E|X]; [|exact (A X)]. subst h0. apply Hne.
-              destruct B as (q' & Eq' & Ek'). congruence.
-           ++ intros h0 Hl Hf. destruct (P3 h0 Hl) as (k & Hk). { intro X. apply Hf. right. exact X. }
+              destruct A as [A|A]; [left; exact A|]. right. apply in_supp_remove. split; [exact A|].
+              intro E. subst h0. apply Hne. destruct B as (q' & Eq' & Ek'). congruence.
+           ++ intros h0 Hl Hf. destruct (P3 h0 Hl Hf) as (k & Hk).
               exists k. apply in_bremove. split; auto. cbn [fst]. intro E. subst k.
-              apply Hf. left. eapply pend_k_inj; eauto.
-      * exists []. cbn. rewrite app_nil_r. reflexivity.
-      * cbn [bscan b_reqs b_fired]. rewrite (proj2 (bmem_nIn _ _) Nf). rewrite Eq. rewrite Ek, Ekf. rewrite zlist_eqb_refl. reflexivity.
+              assert (h0 = h) by (eapply pend_k_inj; eauto). subst h0. apply Hf. apply IS. exact Su.
+      * apply bmem_nIn in Su. assert (Nf' : ~ In h (b_fired s)) by (destruct Nf as [X|X]; [exact X | contradiction]).
+        unfold bfire in H. cbn [b_fired] in H. fold (bmem h (b_fired s)) in H. rewrite (proj2 (bmem_nIn _ _) Nf') in H.
+        injection H as <- <-. cbn [b_pending b_rx]. split; [|split; [reflexivity | split; discriminate]].
+        split; [|split].
+        -- unfold BInv. cbn [b_fired b_reqs b_pending b_failed b_supp]. split; [|split; [split|split; [|exact Fl]]].
+           ++ intros x [<-|Hx]; [apply nth_error_Some; congruence | auto].
+           ++ constructor; auto.
+           ++ intros x Hx. right. apply IS. exact Hx.
+           ++ unfold pend_ok. cbn [b_fired b_reqs b_supp]. split; [|split; [|split]].
+              ** apply NoDup_map_filter'. exact P1.
+              ** apply NoDup_map_filter'. exact P0.
+              ** intros k h0 Hin. apply in_bremove in Hin. destruct Hin as [Hin Hne]. cbn [fst] in Hne.
+                 destruct (P2 _ _ Hin) as (A & B). split; [|exact B].
+                 destruct A as [A|A]; [|right; exact A]. left.
+                 intros [E|X]; [|exact (A X)]. subst h0. apply Hne.
+                 destruct B as (q' & Eq' & Ek'). congruence.
+              ** intros h0 Hl Hf. destruct (P3 h0 Hl) as (k & Hk). { intro X. apply Hf. right. exact X. }
+                 exists k. apply in_bremove. split; auto. cbn [fst]. intro E. subst k.
+                 apply Hf. left. eapply pend_k_inj; eauto.
+        -- exists []. cbn. rewrite app_nil_r. reflexivity.
+        -- cbn [bscan b_reqs b_fired]. rewrite (proj2 (bmem_nIn _ _) Nf'). rewrite Eq. rewrite Ek, Ekf. rewrite zlist_eqb_refl. reflexivity.
     + injection H as <- <-. split; [apply bstep_ok_same; exact I | split; [reflexivity | rewrite Ep; tauto]].
   - injection H as <- <-. split; [apply bstep_ok_same; exact I | split; [reflexivity | rewrite Ep; tauto]].
 Qed.
@@ -199,37 +228,48 @@ Proof.
     split; [eapply bstep_ok_trans; eauto | split; [congruence | tauto]].
 Qed.
 
-(* connectionLost: every pending Deferred fails *)
+(* connectionLost: every pending Deferred fails (the errback of a cancelled one is swallowed) *)
 Lemma b_fail_all_ok : forall p s s' o, b_pending s = None -> b_failed s = true ->
   (forall h, In h (b_fired s) -> (h < length (b_reqs s))%nat) -> NoDup (b_fired s) ->
-  NoDup (map snd p) -> (forall k h, In (k, h) p -> ~ In h (b_fired s) /\ (h < length (b_reqs s))%nat) ->
+  (forall h, In h (b_supp s) -> In h (b_fired s)) ->
+  NoDup (map snd p) -> (forall k h, In (k, h) p -> (~ In h (b_fired s) \/ In h (b_supp s)) /\ (h < length (b_reqs s))%nat) ->
   b_fail_all s p = (s', o) ->
   b_pending s' = None /\ b_failed s' = true /\ b_reqs s' = b_reqs s /\ b_rx s' = b_rx s
   /\ (forall h, In h (b_fired s') -> (h < length (b_reqs s))%nat) /\ NoDup (b_fired s')
   /\ (forall h, In h (b_fired s') <-> In h (b_fired s) \/ In h (map snd p))
   /\ bscan (b_reqs s) (b_fired s) o = Some (b_fired s').
 Proof.
-  induction p as [|[k h] p IH]; intros s s' o Ep Ef I1 I2 ND Hp H; cbn [b_fail_all] in H.
+  induction p as [|[k h] p IH]; intros s s' o Ep Ef I1 I2 IS ND Hp H; cbn [b_fail_all] in H.
   - injection H as <- <-. repeat split; auto. intros [X|[]]. exact X.
   - cbn [map snd] in ND. inversion ND as [|? ? Nh ND']; subst.
     destruct (Hp k h (or_introl eq_refl)) as [Nf Hl].
-    unfold bfire in H. fold (bmem h (b_fired s)) in H. rewrite (proj2 (bmem_nIn _ _) Nf) in H.
-    match type of H with (let (s2, o2) := b_fail_all ?x p in _) = _ => set (s1 := x) in * end.
-    destruct (b_fail_all s1 p) as [s2 o2] eqn:E2. injection H as <- <-.
-    destruct (IH s1 s2 o2) as (A1 & A2 & A3 & A4 & A5 & A6 & A7 & A8); auto.
-    + intros x [<-|Hx]; [exact Hl | apply I1; exact Hx].
-    + constructor; auto.
-    + intros k0 h0 Hin. destruct (Hp k0 h0 (or_intror Hin)) as [B1 B2]. split; [|exact B2].
-      intros [E|X]; [|exact (B1 X)]. subst h0. apply Nh. change h with (snd (k0, h)). apply in_map. exact Hin.
-    + repeat split; auto.
-      * intro X. apply A7 in X. cbn [b_fired s1 map snd] in *. destruct X as [[<-|X]|X]; auto. right. left. reflexivity. right. right. exact X.
-      * intro X. apply A7. cbn [b_fired s1 map snd] in *. destruct X as [X|[<-|X]]; auto. left. right. exact X. left. left. reflexivity.
-      * cbn [app bscan]. rewrite (proj2 (bmem_nIn _ _) Nf). exact A8.
+    fold (bmem h (b_supp s)) in H. destruct (bmem h (b_supp s)) eqn:Su.
+    + apply bmem_In in Su.
+      destruct (IH s s' o) as (A1 & A2 & A3 & A4 & A5 & A6 & A7 & A8); auto.
+      { intros k0 h0 Hin. apply (Hp k0 h0). right. exact Hin. }
+      repeat split; auto.
+      * intro X. apply A7 in X. cbn [map snd]. destruct X as [X|X]; [left; exact X | right; right; exact X].
+      * intro X. apply A7. cbn [map snd] in X. destruct X as [X|[<-|X]]; [left; exact X | left; apply IS; exact Su | right; exact X].
+    + apply bmem_nIn in Su. assert (Nf' : ~ In h (b_fired s)) by (destruct Nf as [X|X]; [exact X | contradiction]).
+      unfold bfire in H. fold (bmem h (b_fired s)) in H. rewrite (proj2 (bmem_nIn _ _) Nf') in H.
+      match type of H with (let (s2, o2) := b_fail_all ?x p in _) = _ => set (s1 := x) in * end.
+      destruct (b_fail_all s1 p) as [s2 o2] eqn:E2. injection H as <- <-.
+      destruct (IH s1 s2 o2) as (A1 & A2 & A3 & A4 & A5 & A6 & A7 & A8); auto.
+      * intros x [<-|Hx]; [exact Hl | apply I1; exact Hx].
+      * constructor; auto.
+      * intros x Hx. right. apply IS. exact Hx.
+      * intros k0 h0 Hin. destruct (Hp k0 h0 (or_intror Hin)) as [B1 B2]. split; [|exact B2].
+        destruct B1 as [B1|B1]; [|right; exact B1]. left.
+        intros [E|X]; [|exact (B1 X)]. subst h0. apply Nh. change h with (snd (k0, h)). apply in_map. exact Hin.
+      * repeat split; auto.
+        -- intro X. apply A7 in X. cbn [b_fired s1 map snd] in *. destruct X as [[<-|X]|X]; auto. right. left. reflexivity. right. right. exact X.
+        -- intro X. apply A7. cbn [b_fired s1 map snd] in *. destruct X as [X|[<-|X]]; auto. left. right. exact X. left. left. reflexivity.
+        -- cbn [app bscan]. rewrite (proj2 (bmem_nIn _ _) Nf'). exact A8.
 Qed.
 
 Theorem bstep_inv s e s' o : BInv s -> bstep s e = (s', o) -> bstep_ok s s' o.
 Proof.
-  intros I H. pose proof I as (I1 & I2 & I3). destruct e; cbn [bstep] in H.
+  intros I H. pose proof I as (I1 & (I2 & IS) & I3). destruct e; cbn [bstep] in H.
   - (* request *)
     assert (Hh : ~ In (length (b_reqs s)) (b_fired s)) by (intro X; apply I1 in X; lia).
     destruct (b_failed s) eqn:Ef.
@@ -237,9 +277,10 @@ Proof.
       rewrite (proj2 (bmem_nIn _ _) Hh) in H. injection H as <- <-.
       destruct (b_pending s) as [p|] eqn:Ep; [destruct I3 as [_ X]; congruence|]. destruct I3 as [_ All].
       split; [|split].
-      * unfold BInv. cbn [b_fired b_reqs b_pending b_failed]. rewrite app_length. cbn [length]. split; [|split; [|split]].
+      * unfold BInv. cbn [b_fired b_reqs b_pending b_failed b_supp]. rewrite app_length. cbn [length]. split; [|split; [split|split]].
         -- intros h [<-|Hx]; [lia | apply I1 in Hx; lia].
         -- constructor; auto.
+        -- intros h Hx. right. apply IS. exact Hx.
         -- reflexivity.
         -- intros h Hl. destruct (Nat.eq_dec h (length (b_reqs s))) as [->|Hne]; [left; reflexivity | right; apply All; lia].
       * exists [request]. reflexivity.
@@ -248,10 +289,11 @@ Proof.
       destruct I3 as [(P1 & P0 & P2 & P3) _].
       destruct (blookup (take 4 (drop 4 request)) p) eqn:L; [injection H as <- <-; apply bstep_ok_same; exact I|].
       injection H as <- <-. split; [|split].
-      * unfold BInv. cbn [b_fired b_reqs b_pending b_failed]. rewrite app_length. cbn [length]. split; [|split; [|split; [|reflexivity]]].
+      * unfold BInv. cbn [b_fired b_reqs b_pending b_failed b_supp]. rewrite app_length. cbn [length]. split; [|split; [split|split; [|reflexivity]]].
         -- intros h Hx. apply I1 in Hx. lia.
         -- exact I2.
-        -- unfold pend_ok. cbn [b_fired b_reqs]. rewrite !map_app. cbn [map fst snd]. split; [|split; [|split]].
+        -- exact IS.
+        -- unfold pend_ok. cbn [b_fired b_reqs b_supp]. rewrite !map_app. cbn [map fst snd]. split; [|split; [|split]].
            ++ apply NoDup_app_last; auto. intro X. apply in_map_iff in X. destruct X as ([k h] & E & Hin). cbn in E. subst h.
               destruct (P2 _ _ Hin) as (_ & q & Eq & _). assert (length (b_reqs s) < length (b_reqs s))%nat by (apply nth_error_Some; congruence). lia.
            ++ apply NoDup_app_last; auto. intro X. apply in_map_iff in X. destruct X as ([k h] & E & Hin). cbn in E. subst k.
@@ -259,7 +301,7 @@ Proof.
            ++ intros k h Hin. apply in_app_iff in Hin. destruct Hin as [Hin|[X|[]]].
               ** destruct (P2 _ _ Hin) as (A & q & Eq & Ek). split; auto. exists q. split; auto.
                  rewrite nth_error_app1; auto. apply nth_error_Some. congruence.
-              ** injection X as <- <-. split; auto. exists request. split; [|reflexivity].
+              ** injection X as <- <-. split; [left; exact Hh|]. exists request. split; [|reflexivity].
                  rewrite nth_error_app2 by lia. rewrite Nat.sub_diag. reflexivity.
            ++ intros h Hl Hf. rewrite app_length in Hl. cbn in Hl. destruct (Nat.eq_dec h (length (b_reqs s))) as [->|Hne].
               ** eexists. apply in_app_iff. right. left. reflexivity.
@@ -280,17 +322,39 @@ Proof.
   - (* connection lost *)
     destruct (b_pending s) as [p|] eqn:Ep.
     + destruct I3 as [(P1 & P0 & P2 & P3) Fl].
-      match type of H with b_fail_all ?x p = _ => set (s1 := x) in * end.
-      destruct (b_fail_all_ok p s1 s' o eq_refl eq_refl I1 I2 P1) as (A1 & A2 & A3 & A4 & A5 & A6 & A7 & A8); auto.
+      match type of H with (let (s2, o2) := b_fail_all ?x p in _) = _ => set (s1 := x) in * end.
+      destruct (b_fail_all s1 p) as [s2 o2] eqn:EF. injection H as <- <-.
+      destruct (b_fail_all_ok p s1 s2 o2 eq_refl eq_refl I1 I2 IS P1) as (A1 & A2 & A3 & A4 & A5 & A6 & A7 & A8); auto.
       { intros k h Hin. destruct (P2 _ _ Hin) as (B1 & q & Eq & _). split; auto. apply nth_error_Some. cbn. congruence. }
       split; [|split].
-      * unfold BInv. rewrite A1, A3. cbn [b_reqs s1]. split; [exact A5 | split; [exact A6 | split; [exact A2|]]].
+      * unfold BInv. cbn [b_fired b_reqs b_pending b_failed b_supp]. rewrite A1, A3. cbn [b_reqs s1].
+        split; [exact A5 | split; [split; [exact A6 | intros h []] | split; [exact A2|]]].
         intros h Hl. apply A7. cbn [b_fired s1]. destruct (in_dec Nat.eq_dec h (b_fired s)) as [Y|N]; [left; exact Y | right].
         destruct (P3 h Hl N) as (k & Hk). change h with (snd (k, h)). apply in_map. exact Hk.
-      * exists []. rewrite A3. cbn. rewrite app_nil_r. reflexivity.
-      * rewrite A3. exact A8.
+      * exists []. cbn [b_reqs]. rewrite A3. cbn. rewrite app_nil_r. reflexivity.
+      * cbn [b_reqs b_fired]. rewrite A3. exact A8.
     + injection H as <- <-. split; [|split; [exists []; cbn; rewrite app_nil_r; reflexivity | reflexivity]].
-      unfold BInv in *. cbn [b_fired b_reqs b_pending b_failed]. split; [exact I1 | split; [exact I2 | split; [reflexivity | apply I3]]].
+      unfold BInv in *. cbn [b_fired b_reqs b_pending b_failed b_supp]. split; [exact I1 | split; [split; [exact I2 | exact IS] | split; [reflexivity | apply I3]]].
+  - (* cancel *)
+    destruct ((h <? length (b_reqs s))%nat && negb (existsb (Nat.eqb h) (b_fired s))) eqn:G;
+      [|injection H as <- <-; apply bstep_ok_same; exact I].
+    apply andb_true_iff in G. destruct G as [G1 G2]. apply Nat.ltb_lt in G1. apply negb_true_iff in G2.
+    fold (bmem h (b_fired s)) in G2. pose proof (proj1 (bmem_nIn _ _) G2) as Nf.
+    unfold bfire in H. fold (bmem h (b_fired s)) in H. rewrite G2 in H. injection H as <- <-.
+    split; [|split; [exists []; cbn; rewrite app_nil_r; reflexivity|]].
+    + unfold BInv. cbn [b_fired b_reqs b_pending b_failed b_supp]. split; [|split; [split|]].
+      * intros x [<-|Hx]; [exact G1 | auto].
+      * constructor; auto.
+      * intros x [<-|Hx]; [left; reflexivity | right; apply IS; exact Hx].
+      * destruct (b_pending s) as [p|] eqn:Ep.
+        -- destruct I3 as [(P1 & P0 & P2 & P3) Fl]. split; [|exact Fl].
+           unfold pend_ok. cbn [b_fired b_reqs b_supp]. split; [exact P1 | split; [exact P0 | split]].
+           ++ intros k h0 Hin. destruct (P2 _ _ Hin) as (A & B). split; [|exact B].
+              destruct (Nat.eq_dec h0 h) as [->|Hne]; [right; left; reflexivity|].
+              destruct A as [A|A]; [left; intros [E|X]; [congruence | exact (A X)] | right; right; exact A].
+           ++ intros h0 Hl Hf. apply P3; auto. intro X. apply Hf. right. exact X.
+        -- destruct I3 as [Fl All]. split; [exact Fl|]. intros h0 Hl. right. apply All. exact Hl.
+    + cbn [bscan b_reqs b_fired]. rewrite G2. reflexivity.
 Qed.
 
 Lemma BInv_init : BInv b_init.
@@ -315,7 +379,7 @@ Theorem bootstrap_pairing evs s o : brun b_init evs = (s, o) ->
   /\ (forall h, In h (bdef_handles o) <-> In h (b_fired s))
   /\ (b_pending s = None -> forall h, (h < length (b_reqs s))%nat -> In h (bdef_handles o)).   (* after the loss every Deferred has fired *)
 Proof.
-  intro H. destruct (brun_inv _ _ _ _ BInv_init H) as ((I1 & I2 & I3) & _ & Sc). cbn [b_fired b_init] in Sc.
+  intro H. destruct (brun_inv _ _ _ _ BInv_init H) as ((I1 & (I2 & _) & I3) & _ & Sc). cbn [b_fired b_init] in Sc.
   pose proof (bscan_fired _ _ _ _ Sc) as F. rewrite app_nil_r in F.
   destruct (bscan_sound _ _ _ _ Sc) as [A B].
   assert (Hin : forall h, In h (bdef_handles o) <-> In h (b_fired s)) by (intro h; rewrite F, <- in_rev; tauto).
@@ -328,3 +392,40 @@ Qed.
 Theorem bootstrap_unknown_id s p f : b_pending s = Some p -> blookup (take 4 f) p = None ->
   b_string_received s f = (s, [BLose]).
 Proof. intros Ep L. unfold b_string_received. rewrite Ep, L. reflexivity. Qed.
+
+(* a late response to a CANCELLED request (its Deferred has no canceller, the _pending entry stays as a tombstone): nothing
+   fires, the connection is NOT dropped, only that entry goes; every other pending request keeps its entry *)
+Theorem bootstrap_late_reply_inert s p f h : b_pending s = Some p -> blookup (take 4 f) p = Some h -> In h (b_supp s) ->
+  exists s', b_string_received s f = (s', [])
+    /\ b_pending s' = Some (bremove (take 4 f) p) /\ b_fired s' = b_fired s /\ b_failed s' = b_failed s
+    /\ b_reqs s' = b_reqs s
+    /\ (forall k' h', In (k', h') p -> k' <> take 4 f -> In (k', h') (bremove (take 4 f) p)).
+Proof.
+  intros Ep L Su. unfold b_string_received. rewrite Ep, L. fold (bmem h (b_supp s)). rewrite (proj2 (bmem_In _ _) Su).
+  eexists. split; [reflexivity|]. cbn. repeat split; auto. intros k' h' Hin Hne. apply in_bremove. split; auto.
+Qed.
+
+(* ... and in every reachable state a pending entry whose Deferred has already fired IS such a tombstone: a frame
+   carrying the id of a cancelled request changes the outcome of no other request *)
+Theorem bootstrap_no_crosstalk evs s o : brun b_init evs = (s, o) ->
+  forall p f h, b_pending s = Some p -> blookup (take 4 f) p = Some h -> In h (b_fired s) ->
+  exists s', b_string_received s f = (s', [])
+    /\ b_pending s' = Some (bremove (take 4 f) p) /\ b_fired s' = b_fired s
+    /\ (forall k' h', In (k', h') p -> k' <> take 4 f -> In (k', h') (bremove (take 4 f) p)).
+Proof.
+  intros H p f h Ep L Hf. destruct (brun_inv _ _ _ _ BInv_init H) as ((I1 & I2 & I3) & _ & _).
+  rewrite Ep in I3. destruct I3 as [(_ & _ & P2 & _) _].
+  destruct (P2 _ _ (blookup_in _ _ _ L)) as ([N|Su] & _); [contradiction|].
+  destruct (bootstrap_late_reply_inert s p f h Ep L Su) as (s' & A & B & C & _ & _ & D).
+  exists s'. auto.
+Qed.
+
+(* cancel of a request that has not completed: CancelledError, and its table entry stays *)
+Theorem bootstrap_cancel_keeps_entry s h : (h < length (b_reqs s))%nat -> ~ In h (b_fired s) ->
+  exists s', bstep s (BCancel h) = (s', [BDef h BFailCancelled])
+    /\ b_pending s' = b_pending s /\ In h (b_supp s') /\ b_fired s' = h :: b_fired s.
+Proof.
+  intros Hl Nf. cbn [bstep]. rewrite (proj2 (Nat.ltb_lt _ _) Hl). fold (bmem h (b_fired s)).
+  rewrite (proj2 (bmem_nIn _ _) Nf). cbn [andb negb]. unfold bfire. fold (bmem h (b_fired s)).
+  rewrite (proj2 (bmem_nIn _ _) Nf). eexists. split; [reflexivity|]. cbn. auto.
+Qed.
